@@ -97,8 +97,9 @@ type Scenario struct {
 	Via          string `json:"via"` // memory | oci
 	Tamper       bool   `json:"tamper"`
 	ReproPair    bool   `json:"reproPair"`
-	Foreign      uint64 `json:"foreign,omitempty"` // != 0: also push a re-ordered archive of the first directory (seed)
-	NonRoot      bool   `json:"nonRoot,omitempty"` // run by an unprivileged user (uid 65534): permission checks of the kernel apply
+	Foreign      uint64 `json:"foreign,omitempty"`   // != 0: also push a re-ordered archive of the first directory (seed)
+	DstSetgid    bool   `json:"dstSetgid,omitempty"` // the second store's working directory is set-group-ID: every directory made in it inherits the bit
+	NonRoot      bool   `json:"nonRoot,omitempty"`   // run by an unprivileged user (uid 65534): permission checks of the kernel apply
 }
 
 func hx(s string) string   { return hex.EncodeToString([]byte(s)) }
@@ -379,6 +380,10 @@ func genScenario(r *common.Rand, idx int) *Scenario {
 	}
 	if sc.NonRoot && sc.Umask&0o300 != 0 {
 		sc.Via = "memory" // an OCI layout could not write into its own directories
+	}
+	if !sc.NonRoot && r.Chance(1, 10) {
+		// a shared project directory as destination (direct pushes elsewhere are left out)
+		sc.DstSetgid, sc.Tamper, sc.Foreign = true, false, 0
 	}
 	if idx < 240 {
 		// the first scenarios walk through every intermediate store x SkipUnpack x ForceCAS x IgnoreNoName
@@ -1247,6 +1252,12 @@ func runScenarioInner(sc *Scenario) {
 		fail(scid, "copy-out-failed", err.Error())
 		return
 	}
+	if sc.DstSetgid {
+		run.Count("destination working directory setgid")
+		if err := os.Chmod(dst, 0o755|os.ModeSetgid); err != nil {
+			panic(err)
+		}
+	}
 	s2f, err := file.New(dst)
 	if err != nil {
 		panic(err)
@@ -1432,7 +1443,11 @@ func runScenarioInner(sc *Scenario) {
 		// pushed under this name?  (a deduplicated directory is restored from the first one's gzip)
 		id := run.NewID()
 		// X = extraction as root, XU = by an unprivileged owner (the model adds the permission check)
-		input := fmt.Sprintf("X%s %d %d %s %s%s", map[bool]string{false: "", true: "U"}[sc.NonRoot], sc.Umask, b2i(sc.Preserve), nameComps(name), tree(it.Tree, false), tail)
+		kindSuffix := map[bool]string{false: "", true: "U"}[sc.NonRoot]
+		if sc.DstSetgid {
+			kindSuffix = "G" // the base directory starts set-group-ID
+		}
+		input := fmt.Sprintf("X%s %d %d %s %s%s", kindSuffix, sc.Umask, b2i(sc.Preserve), nameComps(name), tree(it.Tree, false), tail)
 		if cerr != nil {
 			// which item failed is not known with several directories; compare only single-directory scenarios
 			ndirs := 0
@@ -1466,6 +1481,16 @@ func runScenarioInner(sc *Scenario) {
 		}
 		// whatever the links look like: once the restore succeeded the tree must be the source tree
 		want := expectTree(it.Tree, umask, sc.Preserve)
+		if sc.DstSetgid && !sc.Preserve {
+			// mkdir(2) in a set-group-ID directory: every directory made there is set-group-ID too
+			// (the kernel's doing; PreservePermissions sets the recorded mode exactly)
+			for k, w := range want {
+				if w.kind == "d" {
+					w.mode |= 0o2000
+					want[k] = w
+				}
+			}
+		}
 		compareTrees(id, name, sc, want, got, fail)
 	}
 }
